@@ -208,9 +208,135 @@ def run(ctx):
     quoting = any(any(M.callee_name(c).endswith("quote_ascii_string_if_required") for _, c in M.calls(fn["body"])) for fn in w.all_fns()
                   if fn["path"].startswith("<ruma_federation_api::authentication::XMatrix as core::fmt::Display>::fmt") and "body" in fn)
     ctx.check(quoting, "C16.xmatrix", "C16.xmatrix:quoting", w.where(fp), bad_msg="Display does not quote parameter values")
+    path_selection(ctx, w)
     if ctx.tier == "thorough":
         from .. import witness
         witness.check(ctx, "C16.witness", {"C16VersionHistoryFields": "VersionHistory can be built field by field from another crate, bypassing the path/version checks of VersionHistory::new"})
     ctx.assumptions += ["serde_html_form / serde_json round-trip values of the carrier types; field-level serde symmetry is checked in C18.symmetry",
                         "select_path over arbitrary subsets of versions is not decided (only that it is the function used)"]
     ctx.samples += [{"endpoint": "federation membership::create_join_event::v2", "path_args": 2, "query": "RequestQuery", "body": "RequestBody"}]
+
+
+def path_selection(ctx, w):
+    """C16.path-selection: the decision structure of VersionHistory::{versioning_decision_for, select_path, stable_endpoint_for}."""
+    P = "ruma_common::api::metadata::VersionHistory::"
+    ctx.rule("C16.path-selection", "versioning_decision_for: Removed iff `removed` is set and ALL supported versions are >= it; otherwise Stable iff a stable "
+                                   "path exists and ANY supported version is >= the first stable version; otherwise Unstable (quantifier closures are "
+                                   "`versions.iter().all/any(|v| v.is_superset_of(version))` with the captured version identified). select_path: Removed -> "
+                                   "Err(EndpointRemoved), Stable -> stable_endpoint_for(versions), Unstable -> unstable() or Err(NoUnstablePath). "
+                                   "stable_endpoint_for: stable paths scanned newest first, the first whose version some supported version reaches is returned")
+    dex = D.Dex(w.lookup, adt_discr=w.adt_discr, unroll=1, inline=lambda n: "{closure" in n and n.count("{closure") == 1)
+    f = w.fn(P + "versioning_decision_for")
+
+    def quant(atom_txt):
+        m = re.match(r"^Iterator::(any|all)\(slice::iter\(versions\), closure\[(.+?)\]\{_ref__version=(.+)\}\)$", atom_txt)
+        if not m:
+            return None
+        clo = w.lookup(m.group(2))
+        calls = [M.callee_name(c) for _, c in M.calls(clo["body"])] if clo and "body" in clo else []
+        if [c.rsplit("::", 1)[-1] for c in calls] != ["is_superset_of"]:
+            return None
+        c = [c for _, c in M.calls(clo["body"])][0]
+        # v.is_superset_of(version): receiver comes from the closure parameter, argument from the captured version
+        a0, a1 = c["args"][0], c["args"][1]
+        def from_env(o):
+            return o.get("k") in ("copy", "move") and _flows_from_env(clo["body"], o["pl"])
+        if from_env(a0) or not from_env(a1):
+            return None
+        field = {"self.removed.Some.0": "removed", "self.deprecated.Some.0": "deprecated", "VersionHistory::added_in(self).Some.0": "added"}.get(m.group(3))
+        return (m.group(1), field) if field else None
+
+    paths = dex.paths(f, [D.sym("self"), D.sym("versions")])
+    ctx.floor("versioning decision paths", len(paths), 6)
+    n_removed = 0
+    for i, pth in enumerate(paths):
+        if pth.kind != "ret":
+            ctx.violation("C16.path-selection", f"C16.path-selection:decision:{pth.kind}", w.where(f), f"versioning_decision_for has a {pth.kind} path")
+            continue
+        conds = {}
+        unknown = []
+        for a, t in pth.conds:
+            sa = D.show_atom(a)
+            q = quant(sa)
+            if q:
+                conds[q] = t
+            elif sa in ("self.removed is Some", "self.removed is None", "self.deprecated is Some", "self.deprecated is None",
+                        "VersionHistory::added_in(self) is Some", "VersionHistory::added_in(self) is None"):
+                fld = "removed" if "removed" in sa else "deprecated" if "deprecated" in sa else "added"
+                conds[("set", fld)] = t if sa.endswith("Some") else (not t)
+            else:
+                unknown.append(sa[:80])
+        rem = conds.get(("set", "removed")) is True and conds.get(("all", "removed")) is True
+        stable = conds.get(("set", "added")) is True and conds.get(("any", "added")) is True
+        want = "Removed" if rem else "Stable" if stable else "Unstable"
+        consulted = conds.get(("set", "removed")) is not True or ("all", "removed") in conds
+        foreign = [k for k in conds if k in (("any", "removed"), ("all", "added"), ("any", "deprecated")) and True]
+        got = D.show(pth.ret).split("(")[0].rsplit("::", 1)[-1]
+        n_removed += got == "Removed"
+        tag = ",".join(f"{k[0]}({k[1]})={'T' if v else 'F'}" for k, v in sorted(conds.items()))
+        ctx.check(got == want and consulted and not unknown and not [k for k in foreign if k != ("any", "deprecated")], "C16.path-selection",
+                  f"C16.path-selection:decision:{tag}", w.where(f),
+                  bad_msg=f"under [{tag}] the decision is {got}, the property prescribes {want}"
+                          + ("" if consulted else " (removal is decided without asking whether ALL supported versions removed the endpoint)")
+                          + (f"; conditions on {foreign}" if foreign else "") + (f"; unrecognised conditions {unknown}" if unknown else ""))
+    ctx.check(n_removed >= 1, "C16.path-selection", "C16.path-selection:decision:removed-reachable", w.where(f), bad_msg="no path returns Removed")
+
+    g = w.fn(P + "select_path")
+    sp = dex.paths(g, [D.sym("self"), D.sym("versions")])
+    seen = set()
+    for pth in sp:
+        if pth.kind != "ret":
+            continue
+        tv = U.true_variants(pth)
+        dec = tv.get("VersionHistory::versioning_decision_for(self, versions)")
+        r = D.show(pth.ret)
+        okk = (dec == "Removed" and r.startswith("Result::Err(IntoHttpError::EndpointRemoved(")) or \
+              (dec == "Stable" and r == "Result::Ok(VersionHistory::stable_endpoint_for(self, versions).Some.0)") or \
+              (dec == "Unstable" and (r == "Result::Ok(VersionHistory::unstable(self).Some.0)" or r == "Result::Err(IntoHttpError::NoUnstablePath)"))
+        key = f"C16.path-selection:select:{dec}:{'ok' if r.startswith('Result::Ok') else 'err'}"
+        if key in seen and okk:
+            continue
+        seen.add(key)
+        ctx.check(okk, "C16.path-selection", key, w.where(g), bad_msg=f"decision {dec} yields {r[:120]}")
+    ctx.check({k.split(":")[2] for k in seen} >= {"Removed", "Stable", "Unstable"}, "C16.path-selection", "C16.path-selection:select:arms", w.where(g),
+              bad_msg=f"select_path arms seen: {sorted(seen)}")
+
+    h = w.fn(P + "stable_endpoint_for")
+    hp = [p_ for p_ in dex.paths(h, [D.sym("self"), D.sym("versions")]) if p_.kind == "ret"]
+    okk = bool(hp)
+    some = 0
+    for pth in hp:
+        r = D.show(pth.ret)
+        conds = [(D.show_atom(a), t) for a, t in pth.conds]
+        nexts = [(a, t) for a, t in conds if a.startswith("Iterator::next(") and " is " in a]
+        rev = all("Iterator::rev(slice::iter(self.stable_paths))" in a for a, t in nexts)
+        if r == "Option::None":
+            okk = okk and rev and nexts and nexts[-1][0].endswith("is None") and not any(t for a, t in conds if a.startswith("Iterator::any("))
+        else:
+            some += 1
+            el = [a[:-len(" is Some")] for a, t in nexts if a.endswith(" is Some") and t][-1:]
+            anys = [(a, t) for a, t in conds if a.startswith("Iterator::any(slice::iter(versions)")]
+            okk = okk and rev and bool(el) and r == f"Option::Some({el[0]}.Some.0.1)" and bool(anys) and anys[-1][1] is True and f"{el[0]}.Some.0.0" in anys[-1][0] \
+                and all(not t for a, t in anys[:-1])
+    ctx.check(okk and some >= 1, "C16.path-selection", "C16.path-selection:newest-first", w.where(h),
+              bad_msg="stable_endpoint_for does not return the path of the first (newest-first) stable entry whose version some supported version reaches")
+
+
+def _flows_from_env(body, pl):
+    """The operand's root local is (transitively, through copies/derefs) read from the closure environment (_1)."""
+    root = pl if isinstance(pl, int) else pl["l"]
+    seen, work = set(), [root]
+    while work:
+        l = work.pop()
+        if l in seen:
+            continue
+        seen.add(l)
+        if l == 1:
+            return True
+        for b in body["blocks"]:
+            for st in b["s"]:
+                if st[0] == "=" and st[1] == l and st[2][0] in ("use", "ref"):
+                    o = st[2][1] if st[2][0] == "use" else {"k": "copy", "pl": st[2][2]}
+                    if o.get("k") in ("copy", "move"):
+                        work.append(o["pl"] if isinstance(o["pl"], int) else o["pl"]["l"])
+    return False
